@@ -72,17 +72,28 @@ def check_graphs(ctx, helper, cases):
         files, pos = ug.render(g)
         d = "g%05d" % ci
         pkgs[d] = files
-        plan.append((ci, d, pos))
+        plan.append((ci, d, pos, "plain"))
+        # Unused.tla ShareSpec: the same graph with related objects declared by one spec
+        if "share" in c and sorted(map(list, c["share"])) != g.share():
+            raise Inconclusive("ShareSpec of the spec %s and of the renderer %s differ" % (c["share"], g.share()))
+        if g.share():
+            files2, pos2 = ug.render(g, style="grouped")
+            if files2 != files:
+                d2 = "h%05d" % ci
+                pkgs[d2] = files2
+                plan.append((ci, d2, pos2, "grouped"))
     res = analyse(ctx, helper, pkgs, "c07")
     stats = Counter()
     records, meta = [], {}
     nontrivial = 0
-    for ci, d, pos in plan:
+    for ci, d, pos, style in plan:
         c = cases[ci]
         g = ug.Graph(c)
         stm, dl = res[d]
         st = ug.obj_status(g, pos, d, stm)
-        stats["graphs"] += 1
+        stats["graphs"] += style == "plain"
+        stats["renderings"] += 1
+        stats["renderings_grouped"] += style == "grouped"
         reported = sorted(o for o in st if st[o] == "unused")
         if reported:
             nontrivial += 1
@@ -90,14 +101,14 @@ def check_graphs(ctx, helper, cases):
         stats["must_objects"] += len(g.must)
         stats["removed_decls"] += dl["removed_decls"]
         stats["neutralised_writes"] += dl["neutralised_writes"]
-        key = ug.graph_key(c)
+        key = ug.graph_key(c) + ("-grouped" if style == "grouped" else "")
         # (ii) false negatives
         missed = [x for x in g.must if st.get(x) != "unused"]
         if missed:
             ctx.violation(key + "-miss",
                           "U1000 does not report %s (%s): unexported, package-level, no identifier refers to it (graph %s)" % (
                               [g.name(x) for x in missed], [st.get(x) for x in missed], key),
-                          {"kind": "miss", "graph": c, "missed": missed, "status": st, "files": pkgs[d]})
+                          {"kind": "miss", "graph": c, "style": style, "missed": missed, "status": st, "files": pkgs[d]})
         # (i) false positives
         if dl.get("unmatched"):
             raise Inconclusive("reported objects without a defining identifier in %s: %s" % (d, dl["unmatched"]))
@@ -109,7 +120,9 @@ def check_graphs(ctx, helper, cases):
             ctx.violation(key + "-del",
                           "deleting what U1000 reports (%s) breaks the package: %s (graph %s)" % (
                               [g.name(o) for o in reported], dl["errors"][:3], key),
-                          {"kind": "del", "graph": c, "reported": reported, "errors": dl["errors"], "files": pkgs[d], "after": dl.get("source")})
+                          {"kind": "del", "graph": c, "style": style, "reported": reported, "errors": dl["errors"], "files": pkgs[d], "after": dl.get("source")})
+        if style != "plain":
+            continue
         records.append({"t": "del", "idx": ci, "objs": c["objs"], "edges": c["edges"], "reported": reported, "variants": []})
         meta[ci] = (d, bool(dl.get("errors")), reported)
     # (O) the spec's DeletionSafe on the same deletion
